@@ -49,6 +49,23 @@ class UBaseFalsy(BaseException):
         return False
 
 
+EXC_CLASSES = [UExc, ValueError, LookupError, ArithmeticError, RuntimeError, TypeError, AssertionError]
+BASE_CLASSES = [UBase, KeyboardInterrupt, SystemExit, GeneratorExit, asyncio.CancelledError]
+
+
+def delivered_by_throw(exc_id):
+    """Exception ids 9000..9999: delivered by `coro.throw` at a real suspension point (cancellation)."""
+    return 9000 <= exc_id < 10000
+
+
+class _Suspend:
+    def __init__(self, exc):
+        self.exc = exc
+
+    def __await__(self):
+        yield self
+
+
 class NonExc:
     """What a faulty error factory returns."""
 
@@ -61,6 +78,7 @@ class World:
         self.objs = {}
         self.log = []
         self.lazy_self = None  # id to give to the first unknown instance (constructors)
+        self.repr_raises = {}
 
     def reg(self, obj, i):
         self.by_pyid[id(obj)] = i
@@ -69,7 +87,10 @@ class World:
 
     def val(self, i, truth="truthy", cid=None):
         if i in self.objs:
-            return self.objs[i]
+            o = self.objs[i]
+            if isinstance(o, V) and cid is not None:
+                o._truth, o._cid = truth, cid
+            return o
         return self.reg(V(self, i, truth, cid), i)
 
     def exc(self, e):
@@ -78,9 +99,10 @@ class World:
             return self.objs[i]
         is_exc = e.get("isException", True)
         truthy = e.get("truthy", True)
-        cls = {(True, True): UExc, (True, False): UExcFalsy, (False, True): UBase, (False, False): UBaseFalsy}[
-            (is_exc, truthy)
-        ]
+        if truthy:
+            cls = (EXC_CLASSES[i % len(EXC_CLASSES)] if is_exc else BASE_CLASSES[i % len(BASE_CLASSES)])
+        else:
+            cls = UExcFalsy if is_exc else UBaseFalsy
         return self.reg(cls("user exception %d" % i), i)
 
     def id_of(self, obj):
@@ -129,6 +151,10 @@ class V:
         raise self._w.exc(t["raises"]["e"])
 
     def __repr__(self):
+        e = self._w.repr_raises.get(self._i)
+        if e is not None:
+            self._w.log.append(["repr", self._i])
+            raise self._w.exc(e)
         return "V%d" % self._i
 
 
@@ -153,12 +179,20 @@ def _params_src(names, defaults, missing_default=False):
 
 
 def build(case):
-    """Materialise the case. Returns (world, namespace, call thunk info)."""
+    """Materialise the case. Returns the Materialised object (source, namespace, world, oracle holder)."""
     w = World()
-    oracle_cond = dict((c, a) for c, a in case["cond"])
-    oracle_cap = dict((s, a) for s, a in case["capture"])
-    oracle_fac = dict((c, a) for c, a in case["fac"])
-    oracle_msg = dict((c, a) for c, a in case["msg"])
+    m = Materialised()
+    m.set_oracle = None
+    orc = {}
+
+    def set_oracle(step):
+        orc["cond"] = dict((c, a) for c, a in step["cond"])
+        orc["cap"] = dict((s, a) for s, a in step["capture"])
+        orc["fac"] = dict((c, a) for c, a in step["fac"])
+        orc["msg"] = dict((c, a) for c, a in step["msg"])
+        orc["body"] = step["body"]
+
+    set_oracle(case)
     is_async = case["async"]
     kind = case["kind"]
 
@@ -166,7 +200,7 @@ def build(case):
         k = _ans_kind(a)
         if k == "val":
             d = a["val"]
-            return w.val(d["v"], d["t"], cid)
+            return w.val(d["v"], d["t"], cid if site == "cond" else None)
         if k == "raises":
             raise w.exc(a["raises"]["e"])
         if k == "coro":
@@ -174,22 +208,37 @@ def build(case):
 
             async def _c():
                 w.log.append(["await" + site, cid])
-                return behave(inner, cid, site)
+                return await abehave(inner, cid, site)
 
             return _c()
         raise AssertionError(a)
 
+    async def abehave(a, cid, site):
+        """Like behave, inside a coroutine: marked exceptions arrive by throw at a real suspension point."""
+        if _ans_kind(a) == "raises" and delivered_by_throw(a["raises"]["e"]["id"]):
+            await _Suspend(w.exc(a["raises"]["e"]))
+            raise AssertionError("resumed after suspension without an exception")
+        return behave(a, cid, site)
+
     def cond_hook(cid, kw):
         w.log.append(["cond", cid, w.canon_kw(kw)])
-        return behave(oracle_cond[cid], cid, "cond")
+        return behave(orc["cond"][cid], cid, "cond")
+
+    async def acond_hook(cid, kw):
+        w.log.append(["cond", cid, w.canon_kw(kw)])
+        return await abehave(orc["cond"][cid], cid, "cond")
 
     def cap_hook(sid, kw):
         w.log.append(["capture", sid, w.canon_kw(kw)])
-        return behave(oracle_cap[sid], None, "capture")
+        return behave(orc["cap"][sid], sid, "capture")
+
+    async def acap_hook(sid, kw):
+        w.log.append(["capture", sid, w.canon_kw(kw)])
+        return await abehave(orc["cap"][sid], sid, "capture")
 
     def fac_hook(cid, kw):
         w.log.append(["errfac", cid, w.canon_kw(kw)])
-        a = oracle_fac[cid]
+        a = orc["fac"][cid]
         k = _ans_kind(a)
         if k == "exc":
             return w.exc(a["exc"]["e"])
@@ -197,24 +246,35 @@ def build(case):
             return NonExc()
         raise w.exc(a["raises"]["e"])
 
-    body_ans = case["body"]
-
     def body_hook(bound):
+        body_ans = orc["body"]
         w.log.append(["body", sorted([k, w.canon_val("", v)] for k, v in bound.items())])
         k = _ans_kind(body_ans)
         if k == "ret":
             if kind in ("init",):
+                w.by_pyid[id(None)] = body_ans["ret"]["v"]  # __init__ must return None: None stands for the result id
                 return None
             return w.val(body_ans["ret"]["v"])
         raise w.exc(body_ans["raises"]["e"])
+
+    async def abody_hook(bound):
+        body_ans = orc["body"]
+        if _ans_kind(body_ans) == "raises" and delivered_by_throw(body_ans["raises"]["e"]["id"]):
+            w.log.append(["body", sorted([k, w.canon_val("", v)] for k, v in bound.items())])
+            await _Suspend(w.exc(body_ans["raises"]["e"]))
+            raise AssertionError("resumed after suspension without an exception")
+        return body_hook(bound)
 
     defaults = dict((n, w.val(i)) for n, i in case["kwdefaults"])
     ns = {
         "icontract": icontract,
         "H_cond": cond_hook,
+        "H_acond": acond_hook,
         "H_cap": cap_hook,
+        "H_acap": acap_hook,
         "H_fac": fac_hook,
         "H_body": body_hook,
+        "H_abody": abody_hook,
         "H_D": defaults,
         "H_MISSING": _MISSING,
         "H_ERR": {},
@@ -258,15 +318,23 @@ def build(case):
         names = c["args"]
         mand = set(c["mandatory"])
         params = ", ".join(n if n in mand else "%s=H_MISSING" % n for n in names)
-        prefix = "async " if c["coroFn"] else ""
-        lines.append("%sdef cond_%d(%s):" % (prefix, cid, params))
-        lines.append("    return H_cond(%d, dict(%s))" % (cid, ", ".join("%s=%s" % (a, a) for a in names)))
+        kwd = "dict(%s)" % ", ".join("%s=%s" % (a, a) for a in names)
+        if c["coroFn"]:
+            lines.append("async def cond_%d(%s):" % (cid, params))
+            lines.append("    return await H_acond(%d, %s)" % (cid, kwd))
+        else:
+            lines.append("def cond_%d(%s):" % (cid, params))
+            lines.append("    return H_cond(%d, %s)" % (cid, kwd))
 
     def snap_def(s):
         sid = s["id"]
-        prefix = "async " if s["coroFn"] else ""
-        lines.append("%sdef cap_%d(%s):" % (prefix, sid, ", ".join(s["args"])))
-        lines.append("    return H_cap(%d, dict(%s))" % (sid, ", ".join("%s=%s" % (a, a) for a in s["args"])))
+        kwd = "dict(%s)" % ", ".join("%s=%s" % (a, a) for a in s["args"])
+        if s["coroFn"]:
+            lines.append("async def cap_%d(%s):" % (sid, ", ".join(s["args"])))
+            lines.append("    return await H_acap(%d, %s)" % (sid, kwd))
+        else:
+            lines.append("def cap_%d(%s):" % (sid, ", ".join(s["args"])))
+            lines.append("    return H_cap(%d, %s)" % (sid, kwd))
 
     decos = []  # per level: list of decorator source lines, outermost first
     for lv in case["levels"]:
@@ -277,9 +345,9 @@ def build(case):
             d.append(
                 "@icontract.ensure(cond_%d, description='c%d'%s)" % (c["id"], c["id"], ", error=%s" % ee if ee else "")
             )
-        for s in lv["snaps"]:
-            snap_def(s)
-            d.append("@icontract.snapshot(cap_%d, name=%r)" % (s["id"], s["name"]))
+        for s_ in lv["snaps"]:
+            snap_def(s_)
+            d.append("@icontract.snapshot(cap_%d, name=%r)" % (s_["id"], s_["name"]))
         for c in lv["pre"]:
             cond_def(c)
             ee = err_expr(c)
@@ -294,13 +362,14 @@ def build(case):
     psrc = _params_src(pnames, dflt)
     bound_src = "dict(%s)" % ", ".join("%s=%s" % (p, p) for p in pnames)
     adef = "async def" if is_async else "def"
+    body_line = "    return await H_abody(%s)" % bound_src if is_async else "    return H_body(%s)" % bound_src
 
     if kind == "function":
         assert len(case["levels"]) == 1
         for dl in decos[0]:
             lines.append(dl)
         lines.append("%s f(%s):" % (adef, psrc))
-        lines.append("    return H_body(%s)" % bound_src)
+        lines.append(body_line)
     else:
         mname = {"method": "m", "static": "m", "class": "m", "propget": "p", "propset": "p", "propdel": "p", "init": "__init__"}[
             kind
@@ -322,15 +391,15 @@ def build(case):
             for dl in d:
                 lines.append(ind + dl)
             lines.append(ind + "%s %s(%s):" % (adef, mname, psrc))
-            lines.append(ind + "    return H_body(%s)" % bound_src)
+            lines.append(ind + body_line)
 
     src = "\n".join(lines) + "\n"
-    m = Materialised()
     m.world = w
     m.src = src
     m.ns = ns
     m.case = case
-    m.oracle_msg = oracle_msg
+    m.orc = orc
+    m.set_oracle = set_oracle
     return m
 
 
@@ -395,9 +464,14 @@ def classify_exception(w, exc):
 
 
 def _drive(coro):
-    """Run a coroutine whose awaits never suspend."""
+    """Run a coroutine; at a real suspension point deliver the pending exception by `throw`."""
     try:
-        coro.send(None)
+        y = coro.send(None)
+        for _ in range(50):
+            if isinstance(y, _Suspend):
+                y = coro.throw(y.exc)
+            else:
+                break
     except StopIteration as e:
         return e.value
     coro.close()
@@ -405,11 +479,20 @@ def _drive(coro):
 
 
 def run(case, keep=False):
-    """Materialise and run; returns the canonical observation dict."""
+    """Materialise and run one call; returns the canonical observation dict."""
+    return run_seq([case], keep=keep)[0]
+
+
+def run_seq(steps, keep=False):
+    """Materialise the first step's program and run every step's call on it, in one context.
+
+    Steps share the program (kind, levels, parameters); each brings its own oracle and call.
+    The in-progress state is preset from the first step only and then left to the library."""
+    case = steps[0]
     m = build(case)
     w = m.world
     kind = case["kind"]
-    obs = {"src": m.src} if keep else {}
+    first = {"src": m.src} if keep else {}
 
     orig_gen = getattr(_rep, "generate_message", None)
 
@@ -422,7 +505,7 @@ def run(case, keep=False):
             except ValueError:
                 pass
         w.log.append(["msg", cid])
-        a = m.oracle_msg.get(cid, "ok")
+        a = m.orc["msg"].get(cid, "ok")
         if _ans_kind(a) == "raises":
             raise w.exc(a["raises"]["e"])
         return orig_gen(contract=contract, resolved_kwargs=resolved_kwargs)
@@ -433,78 +516,42 @@ def run(case, keep=False):
         try:
             exec(compile(m.src, "<case>", "exec"), m.ns)
         except BaseException as e:  # definition-time failure
-            obs.update({"define": ["raise", type(e).__name__, str(e)[:120]], "trace": [], "out": None})
-            return obs
-        obs["define"] = ["ok"]
+            first.update({"define": ["raise", type(e).__name__, str(e)[:120]], "trace": [], "out": None})
+            return [first] + [dict(first) for _ in steps[1:]]
         ns = m.ns
-        args = [w.val(i) for i in case["args"]]
-        kwargs = dict((k, w.val(i)) for k, i in case["kwargs"])
-        call = None
-        bare = None
+        inst = None
+        last = None
         if kind == "function":
             f = ns["f"]
-            bare = inspect.unwrap(f)
-            call = lambda: f(*args, **kwargs)  # noqa: E731
             checker = _ck.find_checker(f)
         else:
             last = ns["L%d" % (len(case["levels"]) - 1)]
-            recv_id = case["args"][0] if case["args"] else None
             if kind in ("method", "propget", "propset", "propdel"):
                 inst = last.__new__(last)
-                if recv_id is not None:
-                    w.objs.pop(recv_id, None)
-                    w.reg(inst, recv_id)
-                rest = args[1:]
                 if kind == "method":
-                    fn = inspect.getattr_static(last, "m")
-                    call = lambda: inst.m(*rest, **kwargs)  # noqa: E731
-                    checker = _ck.find_checker(fn)
+                    checker = _ck.find_checker(inspect.getattr_static(last, "m"))
                 else:
                     prop = inspect.getattr_static(last, "p")
-                    if kind == "propget":
-                        call = lambda: inst.p  # noqa: E731
-                        checker = _ck.find_checker(prop.fget)
-                    elif kind == "propset":
-                        call = lambda: setattr(inst, "p", rest[0])  # noqa: E731
-                        checker = _ck.find_checker(prop.fset)
-                    else:
-                        call = lambda: delattr(inst, "p")  # noqa: E731
-                        checker = _ck.find_checker(prop.fdel)
-            elif kind == "class":
-                if recv_id is not None:
-                    w.objs.pop(recv_id, None)
-                    w.reg(last, recv_id)
-                rest = args[1:]
-                call = lambda: last.m(*rest, **kwargs)  # noqa: E731
-                checker = _ck.find_checker(inspect.getattr_static(last, "m").__func__)
-            elif kind == "static":
-                call = lambda: last.m(*args, **kwargs)  # noqa: E731
+                    checker = _ck.find_checker({"propget": prop.fget, "propset": prop.fset, "propdel": prop.fdel}[kind])
+            elif kind in ("class", "static"):
                 checker = _ck.find_checker(inspect.getattr_static(last, "m").__func__)
             elif kind == "init":
-                w.lazy_self = recv_id
-                w.lazy_cls = last
-                if recv_id is not None:
-                    w.objs.pop(recv_id, None)
-                rest = args[1:]
-                call = lambda: last(*rest, **kwargs)  # noqa: E731
                 checker = _ck.find_checker(inspect.getattr_static(last, "__init__"))
             else:
                 raise AssertionError(kind)
-            bare = inspect.unwrap(checker) if checker is not None else None
+        bare = inspect.unwrap(checker) if checker is not None else (inspect.unwrap(ns["f"]) if kind == "function" else None)
 
-        # introspection (mapped back to contract ids through the description tag)
         def cid_of(contract):
             d = getattr(contract, "description", None)
             return int(d[1:]) if isinstance(d, str) and d[1:].isdigit() else None
 
         if checker is not None:
-            obs["pre"] = [[cid_of(c) for c in g] for g in getattr(checker, "__preconditions__", [])]
-            obs["posts"] = [cid_of(c) for c in getattr(checker, "__postconditions__", [])]
-            obs["snaps"] = [s.name for s in getattr(checker, "__postcondition_snapshots__", [])]
+            first["pre"] = [[cid_of(c) for c in g] for g in getattr(checker, "__preconditions__", [])]
+            first["posts"] = [cid_of(c) for c in getattr(checker, "__postconditions__", [])]
+            first["snaps"] = [s.name for s in getattr(checker, "__postcondition_snapshots__", [])]
         else:
-            obs["pre"], obs["posts"], obs["snaps"] = [], [], []
+            first["pre"], first["posts"], first["snaps"] = [], [], []
 
-        # in-progress state before the call
         var = getattr(_ck, "_IN_PROGRESS", None)
         token = None
         fid = case["fid"]
@@ -515,35 +562,75 @@ def run(case, keep=False):
                     pre_set.add(id(bare))
                 else:
                     pre_set.add(-i - 1)
-            token = var.set(pre_set if (case["inProgress"] or case.get("presetSet")) else None)
+            token = var.set(pre_set if case["inProgress"] else None)
+        results = []
         try:
-            try:
-                r = call()
-                if case["async"] and inspect.iscoroutine(r):
-                    r = _drive(r)
-                if kind in ("propset", "propdel", "init"):
-                    out = ["ret", None]
-                else:
-                    out = ["ret", w.id_of(r)]
-            except BaseException as e:  # noqa: B902
-                out = ["raise", classify_exception(w, e)]
-            if var is not None:
-                cur = var.get()
-                after = []
-                for x in sorted(cur) if cur else []:
-                    if bare is not None and x == id(bare):
-                        after.append(fid)
-                    elif x < 0:
-                        after.append(-x - 1)
+            for si, step in enumerate(steps):
+                obs = first if si == 0 else {}
+                obs["define"] = ["ok"]
+                m.set_oracle(step)
+                w.log = []
+                w.repr_raises = dict((i, e) for i, e in step.get("reprRaises", []))
+                args = [w.val(i) for i in step["args"]]
+                kwargs = dict((k, w.val(i)) for k, i in step["kwargs"])
+                recv_id = step["args"][0] if step["args"] else None
+                if kind == "function":
+                    call = lambda: ns["f"](*args, **kwargs)  # noqa: E731
+                elif kind in ("method", "propget", "propset", "propdel"):
+                    if recv_id is not None:
+                        w.reg(inst, recv_id)
+                    rest = args[1:]
+                    call = {"method": lambda: inst.m(*rest, **kwargs), "propget": lambda: inst.p,
+                            "propset": lambda: setattr(inst, "p", rest[0]), "propdel": lambda: delattr(inst, "p")}[kind]
+                elif kind == "class":
+                    if recv_id is not None:
+                        w.reg(last, recv_id)
+                    rest = args[1:]
+                    call = lambda: last.m(*rest, **kwargs)  # noqa: E731
+                elif kind == "static":
+                    call = lambda: last.m(*args, **kwargs)  # noqa: E731
+                elif kind == "init":
+                    w.lazy_self = recv_id
+                    w.lazy_cls = last
+                    if recv_id is not None and recv_id in w.objs:
+                        old = w.objs.pop(recv_id)
+                        w.by_pyid.pop(id(old), None)
+                    rest = args[1:]
+                    call = lambda: last(*rest, **kwargs)  # noqa: E731
+                try:
+                    r = call()
+                    if case["async"] and inspect.iscoroutine(r):
+                        r = _drive(r)
+                    if kind in ("propset", "propdel", "init"):
+                        out = ["ret", None]
                     else:
-                        after.append(["?", x])
-                obs["inprog"] = after
+                        out = ["ret", w.id_of(r)]
+                except common.Infra:
+                    raise
+                except BaseException as e:  # noqa: B902
+                    out = ["raise", classify_exception(w, e)]
+                    obs["exc"] = {"type": type(e).__name__, "is_assertion": isinstance(e, AssertionError),
+                                  "is_violation_error": isinstance(e, icontract.ViolationError),
+                                  "arg0_str": bool(e.args) and isinstance(e.args[0], str),
+                                  "nargs": len(e.args)}
+                if var is not None:
+                    cur = var.get()
+                    after = []
+                    for x in sorted(cur) if cur else []:
+                        if bare is not None and x == id(bare):
+                            after.append(fid)
+                        elif x < 0:
+                            after.append(-x - 1)
+                        else:
+                            after.append(["?", x])
+                    obs["inprog"] = sorted(after, key=str)
+                obs["trace"] = w.log
+                obs["out"] = out
+                results.append(obs)
         finally:
             if token is not None:
                 var.reset(token)
-        obs["trace"] = w.log
-        obs["out"] = out
-        return obs
+        return results
     finally:
         if orig_gen is not None:
             _rep.generate_message = orig_gen
